@@ -611,8 +611,15 @@ func genHistory(r *gen.Rand, model bool) *history {
 		prev.Clear = r.Bool()
 		hs.Runs = append(hs.Runs, &prev)
 		obs.Same = true
-		obs.Clear = true
-		obs.SetBC = r.Intn(3) == 0
+		switch r.Intn(4) {
+		case 0:
+			// SetBytecode with the very Bytecode the VM already holds, without Clear: a reset like any other
+			obs.Clear, obs.SetBC = false, true
+		case 1:
+			obs.Clear, obs.SetBC = true, true
+		default:
+			obs.Clear, obs.SetBC = true, false
+		}
 	default:
 		obs.SetBC = true
 		obs.Clear = r.Bool()
